@@ -357,7 +357,7 @@ theorem assemble_not_diverged (fs : Files) (lines : List Str) : assemble fs line
   unfold assemble
   rcases parseLines_cases lines with ⟨parsed, h⟩ | h <;> rw [h]
   · dsimp only
-    cases h1 : expand fs 64 [] parsed with
+    cases h1 : expand fs (includeFuel fs) [] parsed with
     | diverged => exact absurd h1 (expand_not_diverged _ _ _ _)
     | ok ss0 =>
       dsimp only
